@@ -1,4 +1,8 @@
-import Sucds.Proofs.GenAll
+import Sucds.Proofs.GenCompactVector
+import Sucds.Proofs.GenIterators
+import Sucds.Proofs.GenBroadword
+import Sucds.Proofs.GenBitVectorScan
+import Sucds.Proofs.GenEFBuilder
 /-! Helper lemmas for `Sucds/Props/C09Gen.lean`: the generated `CompactVector` operations agree with the model
     under bounds on the **resulting** contents only (a rejected `push_int` needs no bound at all, a failed
     `extend` only one for the items before the first misfit), for every width `0..=64` (width 0 is the `Default`
